@@ -269,6 +269,25 @@ def run_shard(desc, ctx):
                      'output.inlineBreak': rng.choice([0, 1, 2, 3, 5]), 'output.formatLeafNode': rng.random() < 0.2,
                      'output.formatForce': rng.choice([[], ['body'], ['p', 'li']])}
             mon.check(abbr, syntax, fopts, copts, dopts, d2, skip_depth=bool(flags.get('field_parent')))
+            if i % 7 == 2:
+                # a line break inside an ATTRIBUTE value: the continuation line starts like every other line - baseIndent plus one unit per open element -
+                # and nothing else changes (compared with the same abbreviation whose value has a blank where the line break was)
+                depth = rng.randint(0, 4)
+                chain = ['x-a', 'x-b', 'section', 'x-c'][:depth]
+                leaf = rng.choice(['p[title="l1\nl2"]', 'x-e[d1=v t="l1\nl2" k]', 'img[alt="l1\nl2"]', 'p[title="l1\nl2"]{t}', 'x-e[t="l1\nl2"]>x-f', 'x-e.c[t="l1\nl2"]+x-g'])
+                ab = '>'.join(chain + [leaf])
+                nl, ind, base = dopts['output.newline'], dopts['output.indent'], dopts['output.baseIndent']
+                cfgm = {'syntax': rng.choice(['html', 'xml', 'jsx']), 'options': dict(dopts)}
+                ctx.ev('attribute-line-break')
+                ctx.mon('oracle:indent-equals-depth')
+                r1 = core.call(mon.expand, ab, cfgm)
+                r2 = core.call(mon.expand, ab.replace('l1\nl2', 'l1 l2'), cfgm)
+                case = {'abbr': ab, 'syntax': cfgm['syntax'], 'format_options': {}, 'comment_options': {}, 'depth_options': dopts, 'attribute_line_break': depth}
+                if r1[0] == 'exc' or r2[0] == 'exc':
+                    ctx.violation('exception', case, {'exc': list(core.exc_site((r1 if r1[0] == 'exc' else r2)[1]))})
+                elif r1[1].replace('l1' + nl + base + ind * depth + 'l2', 'l1 l2') != r2[1]:
+                    ctx.violation('indent-not-depth', dict(case, which='attribute-value-line'), {'why': 'the continuation line of an attribute value is not at baseIndent + %d units (or something else changed)' % depth,
+                                                                                                'output': r1[1][:300], 'single_line_twin': r2[1][:300]})
     finally:
         pr.uninstall()
     for k, v in pr.reach().items():
@@ -276,6 +295,16 @@ def run_shard(desc, ctx):
 
 
 def replay(case, ctx):
+    if 'attribute_line_break' in case:
+        mon = Mon(ctx)
+        d = case['depth_options']
+        cfgm = {'syntax': case['syntax'], 'options': dict(d)}
+        ctx.ev('replay')
+        r1 = core.call(mon.expand, case['abbr'], cfgm)
+        r2 = core.call(mon.expand, case['abbr'].replace('l1\nl2', 'l1 l2'), cfgm)
+        if r1[0] == 'exc' or r2[0] == 'exc' or r1[1].replace('l1' + d['output.newline'] + d['output.baseIndent'] + d['output.indent'] * case['attribute_line_break'] + 'l2', 'l1 l2') != r2[1]:
+            ctx.violation('indent-not-depth', case, {'output': repr(r1[1])[:300]})
+        return
     Mon(ctx).check(case['abbr'], case['syntax'], case['format_options'], case['comment_options'], case['depth_options'], case.get('d2', False), case.get('skip_depth', False))
 
 
